@@ -56,15 +56,20 @@ theorem C17_insert_balanced (full : Bool) (sh : Shape) (failAt : Nat) :
     (∀ o arr, gained = some (o, arr) → arr.isSome = full) :=
   insert_summary failAt full sh
 
-/-- cif_value_set_element_at (clone into the EXISTING element object; the source marks this path "TODO: check safety in
-    case of failure"), every element shape, every fault position: no double / invalid free; on failure nothing
-    allocated in the call stays live (and the target object itself is never released); on success exactly the blocks
-    the target gained are live; CIF_OK exactly when no request failed. -/
-theorem C17_set_element_balanced (sh : Shape) (failAt : Nat) :
-    let (rc, gained, st) := setElement failAt sh
-    Balanced st.evs (match gained with | some g => g | none => []) ∧
-    (rc = OK ∨ rc = MEMORY_ERROR) ∧ (rc = OK ↔ gained.isSome) ∧ (rc = OK ↔ NoFail st.evs) :=
-  set_summary failAt sh
+/-- cif_value_set_element_at (cif_value_clone onto the EXISTING element object; since /repo f1b092b the copy is built in
+    a scratch object first), every target `old`, every source shape, every fault position, from ANY state `s` in which
+    the events so far are balanced with the target's blocks `old.ids` (and any other blocks `rest`) live and no live id
+    exceeds the request counter:  no double / invalid free;  on failure nothing allocated in the call stays live and
+    EVERY block of the target is still live — the target is untouched (a released id can never become live again, ids
+    being fresh);  on success exactly the target object with the new components is live: the old components and the
+    scratch object have been released, each once;  CIF_OK exactly when no request of the call failed. -/
+theorem C17_set_element_balanced (sh : Shape) (failAt : Nat) (s : St) (old : Owned) (rest : List Nat)
+    (hb : Balanced s.evs (old.ids ++ rest)) (hc : ∀ i ∈ old.ids ++ rest, i ≤ s.count) :
+    let (rc, gained, st) := setElement failAt old sh s
+    (rc = OK ∨ rc = MEMORY_ERROR) ∧ (rc = OK ↔ gained.isSome) ∧
+    Balanced st.evs (match gained with | some g => old.obj :: g ++ rest | none => old.ids ++ rest) ∧
+    (rc = OK ↔ failIds st.evs = failIds s.evs) :=
+  set_summary failAt old sh s rest hb hc
 
 /-- cif_loop_get_names (cif_loop_get_names_internal without normalisation, stored loop with `n` item names) WITH THE
     PROPOSED ONE-LINE REPAIR (notes/agents/gI-fixes.diff), every `n`, every fault position: no double / invalid free;
@@ -88,10 +93,61 @@ theorem C17_cex_get_names_leak (n failAt : Nat) :
     (namesLeak failAt n ≠ [] → rc = MEMORY_ERROR ∧ owned = [] ∧ ¬ Balanced st.evs owned) :=
   names_pinned_summary failAt n
 
+/-- cif_value_copy_char onto any value `old` (cif_u_strdup, then cif_value_init_char = clean + take ownership), every
+    fault position, from any state in which `old` is live (hypotheses as for C17_set_element_balanced): on failure the
+    value is untouched (all its blocks still live) and nothing of the call is live; on success the value object owns
+    exactly the copy — its old components have been released, each once. -/
+theorem C17_copy_char_balanced (failAt : Nat) (s : St) (old : Owned) (rest : List Nat)
+    (hb : Balanced s.evs (old.ids ++ rest)) (hc : ∀ i ∈ old.ids ++ rest, i ≤ s.count) :
+    let (rc, gained, st) := copyChar failAt old s
+    (rc = OK ∨ rc = MEMORY_ERROR) ∧ (rc = OK ↔ gained.isSome) ∧
+    Balanced st.evs (match gained with | some g => old.obj :: g ++ rest | none => old.ids ++ rest) ∧
+    (rc = OK ↔ failIds st.evs = failIds s.evs) :=
+  copyChar_summary failAt old s rest hb hc
+
+/-- cif_value_deserialize of the blob of a list value (elements: unknown/na, character values, lists of such, any
+    nesting and width; numbers and tables are not covered) onto an existing value object, every fault position:
+    no double / invalid free; on failure every element object, text and element array obtained so far is released
+    exactly once and nothing stays live; on success exactly the blocks the destination gained are live; CIF_OK exactly
+    when no request failed, otherwise CIF_ERROR. -/
+theorem C17_deserialize_balanced (elems : List DShape) (failAt : Nat) :
+    let (rc, gained, st) := deserialize failAt elems
+    Balanced st.evs (match gained with | some g => g | none => []) ∧
+    (rc = OK ∨ rc = ERROR) ∧ (rc = OK ↔ gained.isSome) ∧ (rc = OK ↔ NoFail st.evs) :=
+  deser_summary failAt elems
+
+/-- cif_packet_create WITH THE PROPOSED REPAIR of cif_packet_create_norm's failure handler (notes/agents/gI-fixes.diff),
+    for every list of (distinct, valid, ASCII) item names — `respelled` says for each name whether its spelling differs
+    from the normalised one — and every fault position, uthash's table and bucket-array requests included (no bucket
+    expansion: at most 9 names in the correspondence runs):  no double / invalid free;  on failure nothing stays live;
+    on success exactly the packet, the hash table and bucket array, the entries, their normalised keys and the copies of
+    the respelled names are live (the name array and all normalisation buffers are released);  CIF_OK exactly when no
+    request failed.  (`PacketRunOk` spells these four conjuncts out.) -/
+theorem C17_packet_create_balanced (respelled : List Bool) (failAt : Nat) :
+    let (rc, p, st) := packetCreate failAt respelled
+    Balanced st.evs (match p with | some p => p.ids | none => []) ∧
+    (rc = OK ∨ rc = MEMORY_ERROR) ∧ (rc = OK ↔ p.isSome) ∧ (rc = OK ↔ NoFail st.evs) :=
+  (packet_gen_summary true failAt respelled).2.2
+    (fun h => by have := ((packet_gen_summary true failAt respelled).1.mp h).1; cases this)
+
+/-- cif_packet_create AS THE CODE IS (open finding F31/ladder/packet/null-table-deref; `packetCreatePinned` is what the
+    correspondence family runs): the model reaches undefined behaviour of the C — cif_map_clean applies HASH_DEL to a
+    head entry whose `hh.tbl` is NULL — exactly when the packet has at least one name and the failed request is number
+    3n + 4, uthash's table for the first entry (then that is the only `fail` event); at EVERY other fault position the
+    run satisfies everything C17_packet_create_balanced states. -/
+theorem C17_cex_packet_create_undefined (respelled : List Bool) (failAt : Nat) :
+    let r := packetCreatePinned failAt respelled
+    (r.1 = UNDEFINED ↔ respelled ≠ [] ∧ failAt = 3 * respelled.length + 4) ∧
+    (r.1 = UNDEFINED → failIds r.2.2.evs = [failAt]) ∧
+    (r.1 ≠ UNDEFINED → PacketRunOk r) := by
+  have h := packet_gen_summary false failAt respelled
+  exact ⟨⟨fun hu => (h.1.mp hu).2, fun hp => h.1.mpr ⟨rfl, hp⟩⟩, h.2.1, h.2.2⟩
+
 /-- the fault position is reached iff it is one of the allocation requests of the fault-free run
     (1 ≤ failAt ≤ their number); then exactly one `fail` event occurs — the request number `failAt` — and it is the
     last request of the call (the ladders only release afterwards); otherwise the run makes the same number of
-    requests as the fault-free run.  For all five ladders (get_names: as the code is and repaired). -/
+    requests as the fault-free run.  For all eight ladders (get_names and packet_create: pinned and repaired; set_element_at and copy_char: from any
+    consistent start state, requests numbered on from `s.count`). -/
 theorem C17_fault_reached_iff (failAt : Nat) :
     (∀ n, let st := (dupUstrings failAt n).2.2
           (¬ NoFail st.evs ↔ 1 ≤ failAt ∧ failAt ≤ (dupUstrings 0 n).2.2.count) ∧
@@ -105,10 +161,24 @@ theorem C17_fault_reached_iff (failAt : Nat) :
           (¬ NoFail st.evs ↔ 1 ≤ failAt ∧ failAt ≤ (insertElement 0 full sh).2.2.count) ∧
           (¬ NoFail st.evs → failIds st.evs = [failAt] ∧ st.count = failAt) ∧
           (NoFail st.evs → st.count = (insertElement 0 full sh).2.2.count)) ∧
-    (∀ sh, let st := (setElement failAt sh).2.2
-          (¬ NoFail st.evs ↔ 1 ≤ failAt ∧ failAt ≤ (setElement 0 sh).2.2.count) ∧
+    (∀ sh s old rest, Balanced s.evs (old.ids ++ rest) → (∀ i ∈ old.ids ++ rest, i ≤ s.count) →
+          let st := (setElement failAt old sh s).2.2          -- requests are numbered on from s.count
+          (failIds st.evs ≠ failIds s.evs ↔ s.count < failAt ∧ failAt ≤ (setElement 0 old sh s).2.2.count) ∧
+          (failIds st.evs ≠ failIds s.evs → failIds st.evs = failIds s.evs ++ [failAt] ∧ st.count = failAt) ∧
+          (failIds st.evs = failIds s.evs → st.count = (setElement 0 old sh s).2.2.count)) ∧
+    (∀ s old rest, Balanced s.evs (old.ids ++ rest) → (∀ i ∈ old.ids ++ rest, i ≤ s.count) →
+          let st := (copyChar failAt old s).2.2
+          (failIds st.evs ≠ failIds s.evs ↔ s.count < failAt ∧ failAt ≤ (copyChar 0 old s).2.2.count) ∧
+          (failIds st.evs ≠ failIds s.evs → failIds st.evs = failIds s.evs ++ [failAt] ∧ st.count = failAt) ∧
+          (failIds st.evs = failIds s.evs → st.count = (copyChar 0 old s).2.2.count)) ∧
+    (∀ fixed respelled, let st := (packetCreateGen fixed failAt respelled).2.2
+          (¬ NoFail st.evs ↔ 1 ≤ failAt ∧ failAt ≤ (packetCreateGen fixed 0 respelled).2.2.count) ∧
           (¬ NoFail st.evs → failIds st.evs = [failAt] ∧ st.count = failAt) ∧
-          (NoFail st.evs → st.count = (setElement 0 sh).2.2.count)) ∧
+          (NoFail st.evs → st.count = (packetCreateGen fixed 0 respelled).2.2.count)) ∧
+    (∀ elems, let st := (deserialize failAt elems).2.2
+          (¬ NoFail st.evs ↔ 1 ≤ failAt ∧ failAt ≤ (deserialize 0 elems).2.2.count) ∧
+          (¬ NoFail st.evs → failIds st.evs = [failAt] ∧ st.count = failAt) ∧
+          (NoFail st.evs → st.count = (deserialize 0 elems).2.2.count)) ∧
     (∀ fixed n, let st := (getNamesGen fixed failAt n).2.2
           (¬ NoFail st.evs ↔ 1 ≤ failAt ∧ failAt ≤ (getNamesGen fixed 0 n).2.2.count) ∧
           (¬ NoFail st.evs → failIds st.evs = [failAt] ∧ st.count = failAt) ∧
@@ -116,7 +186,10 @@ theorem C17_fault_reached_iff (failAt : Nat) :
   ⟨fun n => fault_of_outcomes (dup_outcome 0 n) (dup_outcome failAt n),
    fun sh => fault_of_outcomes (clone_outcome 0 sh) (clone_outcome failAt sh),
    fun full sh => fault_of_outcomes (insert_outcome 0 full sh) (insert_outcome failAt full sh),
-   fun sh => fault_of_outcomes (set_outcome 0 sh) (set_outcome failAt sh),
+   fun sh s old rest hb hc => fault_of_outcomes_from (set_outcome 0 old sh s rest hb hc) (set_outcome failAt old sh s rest hb hc),
+   fun s old rest hb hc => fault_of_outcomes_from (copyChar_outcome 0 old s rest hb hc) (copyChar_outcome failAt old s rest hb hc),
+   fun fixed fl => fault_of_outcomes (packet_outcome fixed 0 fl) (packet_outcome fixed failAt fl),
+   fun elems => fault_of_outcomes (deser_outcome 0 elems) (deser_outcome failAt elems),
    fun fixed n => fault_of_outcomes (names_outcome fixed 0 n) (names_outcome fixed failAt n)⟩
 
 -- ---------------------------------------------------------------------------------------------------------------
@@ -157,14 +230,28 @@ example : (insertElement 5 true (.lst [.chr])).1 = MEMORY_ERROR ∧
 /-- the fault position 5 is beyond the 4 requests of the non-full insertion: not reached, CIF_OK -/
 example : (insertElement 5 false (.lst [.chr])).1 = OK ∧ (insertElement 0 false (.lst [.chr])).2.2.count = 4 := by decide
 
-/-- replacing an element by `[ 1.5(2) 'a' ]` (7 requests: array, two element objects, 3 + 1 component blocks); the
-    5th request (su_digits of the number) fails: digits, text, the element object and the new array are released, the
-    target object is not (it is not a block of the window at all) -/
-example : (setElement 0 (.lst [.numb true, .chr])).2.2.count = 7 ∧
-    (setElement 5 (.lst [.numb true, .chr])).1 = MEMORY_ERROR ∧
-    (setElement 5 (.lst [.numb true, .chr])).2.2.evs =
-      [.alloc 1, .alloc 2, .alloc 3, .alloc 4, .fail 5, .free 4, .free 3, .free 2, .free 1] ∧
-    final (setElement 5 (.lst [.numb true, .chr])).2.2.evs = some [] := by decide +kernel
+/-- the element `[ 'x' ]` (object 1, array 2, element object 3, text 4 — built by a fault-free clone from the empty
+    state, so the hypotheses of C17_set_element_balanced hold) is replaced by `[ 1.5(2) 'a' ]` (8 requests: scratch
+    object, array, two element objects, 3 + 1 component blocks).  Request 4 + 6 (su_digits of the number) fails: digits,
+    text, the element object, the new array and the scratch object are released and NO block of the target is. -/
+example :
+    let old : Owned := .lst 1 2 [.chr 3 4]
+    let s0 := (clone 0 (.lst [.chr])).2
+    (clone 0 (.lst [.chr])).1.map (·.ids) = some old.ids ∧ final s0.evs = some [4, 3, 2, 1] ∧ s0.count = 4 ∧
+    (setElement 0 old (.lst [.numb true, .chr]) s0).2.2.count = 4 + 8 ∧
+    (setElement 10 old (.lst [.numb true, .chr]) s0).1 = MEMORY_ERROR ∧
+    (setElement 10 old (.lst [.numb true, .chr]) s0).2.2.evs.drop 4 =
+      [.alloc 5, .alloc 6, .alloc 7, .alloc 8, .alloc 9, .fail 10, .free 9, .free 8, .free 7, .free 6, .free 5] ∧
+    final (setElement 10 old (.lst [.numb true, .chr]) s0).2.2.evs = some [4, 3, 2, 1] := by decide +kernel
+
+/-- …and without a fault: the old text 4, old element object 3, old array 2 and the scratch object 5 are released;
+    the target object 1 now owns the blocks 6 … 12 -/
+example :
+    let old : Owned := .lst 1 2 [.chr 3 4]
+    let s0 := (clone 0 (.lst [.chr])).2
+    (setElement 0 old (.lst [.numb true, .chr]) s0).1 = OK ∧
+    (setElement 0 old (.lst [.numb true, .chr]) s0).2.2.evs.drop (4 + 8) = [.free 4, .free 3, .free 2, .free 5] ∧
+    (final (setElement 0 old (.lst [.numb true, .chr]) s0).2.2.evs).map (·.length) = some 8 := by decide +kernel
 
 /-- cif_loop_get_names on 2 names, the 4th request (the 2nd name's string) fails.  As the code is: the first entry is
     released (string 2, node 1) but node 3 stays live — the checker reports the leak; repaired: node 3 is released. -/
@@ -177,6 +264,45 @@ example : (getNamesPinned 4 2).1 = MEMORY_ERROR ∧
 /-- …and without a fault: nodes 1, 3 released, the strings 2, 4 and the array 5 owned by the caller -/
 example : (getNames 0 2).1 = OK ∧ (getNames 0 2).2.1 = [5, 4, 2] ∧ final (getNames 0 2).2.2.evs = some [5, 4, 2] := by
   decide
+
+/-- cif_packet_create for the names `_a0` (already normalised) and `_A1` (respelled): 13 requests.  Request 10 is
+    uthash's table.  As the code is: undefined behaviour (the events stop at `fail 10`).  Repaired: entry 9, packet 8,
+    both normalised names 7, 4 and the array 1 are released.  Request 13 (the copy of `_A1`) fails: the packet is
+    released as a stand-alone one (keys 4, 7; entries 9, 12; buckets 11, table 10; packet 8), then the array. -/
+example :
+    (packetCreate 0 [false, true]).2.2.count = 13 ∧
+    (packetCreate 0 [false, true]).2.1.map (·.ids) = some [8, 10, 11, 9, 4, 12, 7, 13] ∧
+    final (packetCreate 0 [false, true]).2.2.evs = some [13, 12, 11, 10, 9, 8, 7, 4] ∧
+    (packetCreatePinned 10 [false, true]).1 = UNDEFINED ∧
+    (packetCreatePinned 10 [false, true]).2.2.evs = [.alloc 1, .alloc 2, .alloc 3, .free 2, .alloc 4, .free 3, .alloc 5,
+      .alloc 6, .free 5, .alloc 7, .free 6, .alloc 8, .alloc 9, .fail 10] ∧
+    (packetCreate 10 [false, true]).1 = MEMORY_ERROR ∧
+    (packetCreate 10 [false, true]).2.2.evs.drop 14 = [.free 9, .free 8, .free 7, .free 4, .free 1] ∧
+    final (packetCreate 10 [false, true]).2.2.evs = some [] ∧
+    (packetCreate 13 [false, true]).2.2.evs.drop 16 =
+      [.fail 13, .free 4, .free 9, .free 11, .free 10, .free 7, .free 12, .free 8, .free 1] ∧
+    final (packetCreate 13 [false, true]).2.2.evs = some [] := by decide +kernel
+
+/-- cif_value_copy_char onto the number 1.5(2) (object 1, text 2, digits 3, su_digits 4): on success the three old
+    components are released and the object owns the copy 5; when the copy fails nothing at all is released -/
+example :
+    let old : Owned := .numb 1 2 3 (some 4)
+    let s0 := (clone 0 (.numb true)).2
+    (copyChar 0 old s0).2.2.evs.drop 4 = [.alloc 5, .free 2, .free 3, .free 4] ∧
+    final (copyChar 0 old s0).2.2.evs = some [5, 1] ∧
+    (copyChar 5 old s0).1 = MEMORY_ERROR ∧ (copyChar 5 old s0).2.2.evs.drop 4 = [.fail 5] ∧
+    final (copyChar 5 old s0).2.2.evs = some [4, 3, 2, 1] := by decide +kernel
+
+/-- deserialising the blob of `[ 'a' [ 'b' ? ] ]` (8 requests: array 1; element object 2 and its text 3; element
+    object 4, inner array 5, inner element object 6 with text 7, inner element object 8); the 7th request (text of
+    'b') fails: inner object 6, inner array 5, list object 4, then the first element (text 3, object 2)
+    and the outer array 1 are released -/
+example :
+    (deserialize 0 [.chr, .lst [.chr, .scalar]]).2.2.count = 8 ∧
+    (deserialize 7 [.chr, .lst [.chr, .scalar]]).1 = ERROR ∧
+    (deserialize 7 [.chr, .lst [.chr, .scalar]]).2.2.evs = [.alloc 1, .alloc 2, .alloc 3, .alloc 4, .alloc 5, .alloc 6,
+      .fail 7, .free 6, .free 5, .free 4, .free 3, .free 2, .free 1] ∧
+    final (deserialize 7 [.chr, .lst [.chr, .scalar]]).2.2.evs = some [] := by decide +kernel
 
 /-- the specification is not trivially satisfiable: a double free, a free of a block never obtained and a leak are
     all rejected -/
